@@ -449,6 +449,26 @@ func genC14(tier string, r *Rng, emit func(Case)) {
 			emit(Case{Ver: ver, Op: "Find", Args: t})
 		}
 	}
+	// fixed cases: every eager and lazy entry point of v3 on a lazily computed finite Number with patterns that are not
+	// palindromes (the digit source watches the caller's slice during the call), and re-runs of one returned iterator
+	// after an early stop on a pattern that overlaps itself
+	for _, pat := range [][]int{{1, 2}, {3, 1, 2}, {1, 1}, {2, 1, 2, 1}} {
+		for _, fn := range []int{0, 1, 2, 3, 4, 7, 8, 9, 10} {
+			for _, kind := range []string{"G", "T"} {
+				var t toks
+				t.s(kind)
+				t.ints([]int{1, 1, 1, 1, 2, 1, 2, 1, 3, 1, 2, 1, 1, 2, 3, 1, 1})
+				t.ints(nil)
+				t.i(1)
+				t.i(-1)
+				t.i(-1)
+				t.ints(pat)
+				t.i(fn)
+				t.i([]int{1, 2, -1}[(fn+len(pat))%3])
+				emit(Case{Ver: "v3", Op: "Find", Args: t})
+			}
+		}
+	}
 	// Positions handed out earlier are not altered by later use of the builder (same histories as C11)
 	generators["C11"]("quick", r, func(c Case) {
 		if c.Op == "Hist" && r.Intn(8) == 0 {
